@@ -86,7 +86,7 @@ CHECKS: dict[str, tuple[str, str, str, str]] = {
         "Random grammars biased to the rewrite patterns and the construct matrix are parsed unoptimized (phase U of each worker process) "
         "and then under the default pipeline and seeded configurations drawn from DEFAULT_OPTIMIZER_PASSES (each pass alone, subsets, "
         "permutations, repetitions, one pass listed six times), interpreted and generated; outcome and tree must be equal. An optimizer-target "
-        "family (12 shapes the passes pattern-match on x ordered pairs of 11 literal-like operands x 3 modifiers x with/without trivia) runs "
+        "family (14 shapes the passes pattern-match on x ordered pairs of 11 literal-like operands x 3 modifiers x with/without trivia) runs "
         "under ordered selections of the passes (all 325 in the thorough tier; the evidence lists the selections run). The evidence counts "
         "how often each pass actually rewrote something. Bounded exploration.",
         "relative property; failure positions are not compared; fresh Optimizer objects per configuration",
